@@ -443,6 +443,13 @@ def one_program(col, pid, rng, feats, depth, pidx, reps=3, clauses=True, flavour
             continue
         col.generic(log, rp2)
         seq_overlap(col, prog, log, rp2, pid=pid)
+        if ref[0] == "exc" and isinstance(ref[1], LookupError) and not isinstance(ref[1], probes.Injected):
+            # the body indexes a result with a key / position that does not exist: plain Python raises, so must the DAG call
+            col.counters["plain_python_raises_lookup_error_cases"] += 1
+            if res[0] == "ok" and (only is None or "tawazi_returned_but_plain_python_raises" in only):
+                col.violation(pid, "tawazi_returned_but_plain_python_raises", dict(
+                    plain_python=repr(ref[1])[:120], value=short(res[1], 300), args=short(args), source="\n".join(G.all_sources(prog))), rp2)
+            continue
         if failing is not None and ref[0] == "exc" and isinstance(ref[1], probes.Injected):
             # the plain function raises because a decorated function raised: so must the DAG call, whatever the resource
             col.counters["plain_python_raises_cases"] += 1
